@@ -478,6 +478,26 @@ func c03F5(l *core.Ledger, sl *serverLoop) {
 	}
 	l.Check(okOnce && okMsg && okFresh, "C03-F5", key+"/handler-start", g.Pos(), "one start per message, with this iteration's freshly allocated message",
 		fmt.Sprintf("handler start: at most once per received message: %v; given the message RecvMsg just filled: %v; a fresh Message per iteration and RecvMsg before the start: %v", okOnce, okMsg, okFresh))
+	// ... and at least once: the only way from one receive to the next that does not start the
+	// handler is the not-found edge of the lookup of the request's method among the handlers
+	notFound := map[sx.Edge]bool{}
+	sx.AllInstrs(sl.fn, func(_ sx.Node, in ssa.Instruction) {
+		ifi, ok := in.(*ssa.If)
+		if !ok {
+			return
+		}
+		cv, _ := condOf(ifi)
+		ex, ok := cv.(*ssa.Extract)
+		if !ok || ex.Index != 1 {
+			return
+		}
+		if lk, ok := ex.Tuple.(*ssa.Lookup); ok && sx.Any(sx.Origins(lk.X), sx.IsFieldNamed("handlers", sx.AnyOrigin)) {
+			notFound[edgeWhere(ifi, false)] = true
+		}
+	})
+	_, skip := sx.Reach(sx.NodeOf(sl.recv), sx.IsInstr(sl.recv), sx.Query{BlockNode: sx.IsInstr(g), BlockEdge: func(e sx.Edge) bool { return notFound[e] }})
+	l.Check(!skip, "C03-F5", key+"/every-request-started", g.Pos(), "a received request whose method has a handler is started",
+		"the receive loop can go on to the next request without starting the handler of the one it has received although a handler is registered (a filter on the message id, on a sequence number, on anything the request carries): calls take their ids before they queue their requests, so two goroutines can legally put a smaller id on the stream after a larger one - the filtered call is never handled, silently")
 }
 
 // c03F4 is shared with C04-H1.
